@@ -290,10 +290,10 @@ def sig_pins(pgpy):
 PIN = {'PGPSignature.hashdata': '2981eddc50082cba',
        'PGPKey.verify': 'b4ccb00a9d710ba8',
        'PGPMessage._signed_data': '1902d60c80829d4b',
-       'SubPackets.parse': '1265ea5b5c258ce1',
+       'SubPackets.parse': '1d7cdef3cf8b027b',
        'SubPackets.__hashbytearray__': '9409a500cab97232',
-       'SubPackets.__setitem__': 'b326059a02237a59',
-       'SubPackets.__copy__': '9f85a0155a10717b',
+       'SubPackets.__setitem__': 'cb36ba630cfe8fd5',
+       'SubPackets.__copy__': 'c4e3c8b8af06fa0c',
        'SignatureV4.parse': 'acd43ddb641de29d',
        'SignatureV4.__bytearray__': '45cbee56b0fa9bee',
        'RSAPub.verify': '8d2365a5e2675812',
